@@ -72,6 +72,13 @@ bool Interp::exec_coll(Interp &I, const Stmt &s)
         PortVal d = I.get(a.at(0));
         Port<void> out;
         if (a.size() == 1) out = wire<stdlib::map_>(w, f, Port<S_TSD>{w, d.ref});
+        else if (a.size() == 2 && I.get(a.at(1)).shape == "tsd" && s.kwi("passthrough", 0))
+        {
+            // the second dictionary is handed to every instance as a whole (pass_through); the instances return dictionaries
+            out = wire<stdlib::map_>(w, f, Port<S_TSD>{w, d.ref}, stdlib::pass_through(Port<S_TSD>{w, I.get(a.at(1)).ref}));
+            I.env[s.dst] = PortVal{out.template as<S_DD>().erased(), PT::Other, "dd"};
+            return true;
+        }
         else if (a.size() == 2 && I.get(a.at(1)).shape == "tsd")
             out = wire<stdlib::map_>(w, f, Port<S_TSD>{w, d.ref}, Port<S_TSD>{w, I.get(a.at(1)).ref});      // two multiplexed dictionaries
         else if (a.size() == 2) out = wire<stdlib::map_>(w, f, Port<S_TSD>{w, d.ref}, I.pi(a.at(1)));
